@@ -6,7 +6,7 @@
    order1_only=True the corner nodes / truncated rows (theorems C13_effective_...). *)
 From Coq Require Import String ZArith Bool Arith List Lia.
 Import ListNotations.
-From FV.C13 Require Import Model ProofsMat ProofsInc ProofsGraph ProofsTop ProofsOrder1.
+From FV.C13 Require Import Model ProofsMat ProofsInc ProofsGraph ProofsTop ProofsOrder1 ProofsStage.
 Open Scope nat_scope.
 
 (* ------------------------------------------------------------ incidence *)
@@ -200,6 +200,87 @@ Theorem C13_e2v_spec : forall m nodal sl st A E,
      else (r <> c /\ entry A r c = true) \/ (r = c /\ entry A r r = false)).
 Proof. exact e2v_spec. Qed.
 
+(* ------------------------------------------- graph level (stage-wise) *)
+(* The operators that follow the adjacency matrix are the standard operators
+   of ANY graph given as a well-formed square boolean matrix (any size, any
+   vertex degree), and the mesh-level functions factor through them.  The
+   harness uses the factorisation to hold the second stage of the code against
+   the model on hub meshes (vertex degree >= 2^7, 2^8) whose first stage is too
+   large for the in-Coq evaluation. *)
+Theorem C13_stagewise_factor : forall m nodal o A,
+  adjacency m nodal o = Some A ->
+  wf_bmat A = true /\ squareb A = true /\
+  run_query m (QLap nodal o) = run_gquery A GLap /\
+  (forall tot, run_query m (QGrad nodal o tot) = run_gquery A (GGrad tot)) /\
+  (o = false -> forall sl st, run_query m (QE2V nodal sl st) = run_gquery A (GE2V sl st)) /\
+  (o = (if nodal then o else false) ->
+   forall n sl zd, run_query m (QHop nodal n sl o zd) = run_gquery A (GHop n sl zd)).
+Proof.
+  intros m nodal o A H. destruct (adjacency_wfb _ _ _ _ H) as [W S].
+  split; [exact W|]. split; [exact S|]. now apply stagewise_factor.
+Qed.
+
+Theorem C13_graph_laplacian_spec : forall A,
+  wf_bmat A = true -> squareb A = true ->
+  znr (laplacian_of A) = bnr A /\ znc (laplacian_of A) = bnr A /\
+  (forall i, i < bnr A -> zsum (zrow (laplacian_of A) i) = 0%Z) /\
+  (forall i j, i < bnr A -> j < bnr A -> i <> j ->
+     zentry (laplacian_of A) i j = b2z (entry A i j)) /\
+  (forall i, i < bnr A -> zentry (laplacian_of A) i i = (- degree A i)%Z).
+Proof. exact graph_laplacian_spec. Qed.
+
+(* `degree` is the number of proper neighbours: an unbounded integer *)
+Theorem C13_degree_is_neighbour_count : forall A i,
+  degree A i = Z.of_nat (length (filter (fun j => negb (Nat.eqb i j) && entry A i j)
+                                        (seq 0 (bnc A)))).
+Proof. exact degree_count. Qed.
+
+Theorem C13_graph_edge_gradient_spec : forall A tot G,
+  wf_bmat A = true -> squareb A = true -> edge_gradient_opt A tot = Some G ->
+  znr G = length (upper_edges A) /\ znc G = bnr A /\
+  (forall k, k < znr G ->
+     exists r c, nth_error (upper_edges A) k = Some (r, c) /\ r < c /\ entry A r c = true /\
+       forall v, v < bnr A ->
+         zentry G k v = if Nat.eqb v r then 1%Z else if Nat.eqb v c then (-1)%Z else 0%Z) /\
+  (forall r c, entry A r c = true -> r < c ->
+     exists k, nth_error (upper_edges A) k = Some (r, c) /\
+       forall k', nth_error (upper_edges A) k' = Some (r, c) -> k' = k).
+Proof. exact graph_edge_gradient_spec. Qed.
+
+Theorem C13_graph_e2v_spec : forall A sl st,
+  wf_bmat A = true -> squareb A = true ->
+  let E := e2v_of A sl st in
+  znr E = bnr A /\ znc E = length (e2v_edges A sl st) /\
+  NoDup (e2v_edges A sl st) /\
+  (forall k, k < znc E ->
+     exists r c, nth_error (e2v_edges A sl st) k = Some (r, c) /\
+       forall v, v < bnr A -> zentry E v k = if Nat.eqb v r then 1%Z else 0%Z) /\
+  (forall r c, In (r, c) (e2v_edges A sl st) <->
+     r < bnr A /\ c < bnr A /\
+     if sl then entry A r c = true
+     else if st then r <> c /\ entry A r c = true
+     else (r <> c /\ entry A r c = true) \/ (r = c /\ entry A r r = false)).
+Proof. exact graph_e2v_spec. Qed.
+
+Theorem C13_graph_n_hop_reach : forall A n,
+  wf_bmat A = true -> squareb A = true ->
+  let H := hop_of A n true false in
+  znr H = bnr A /\ znc H = bnr A /\
+  forall i j, i < bnr A -> j < bnr A ->
+    (zentry H i j = 1%Z <-> reach A n i j) /\ (zentry H i j = 0%Z <-> ~ reach A n i j).
+Proof. exact graph_n_hop_reach. Qed.
+
+(* non-vacuity at a size where the narrow integer dtypes overflow: the star
+   K_{1,200} (hub 0) given as a dense literal-like matrix *)
+Definition star200 : bmat := bmk 201 201 (fun i j => Nat.eqb i j || Nat.eqb i 0 || Nat.eqb j 0).
+Example C13_graph_nonvacuous :
+  wf_bmat star200 = true /\ squareb star200 = true /\
+  degree star200 0 = 200%Z /\ zentry (laplacian_of star200) 0 0 = (-200)%Z /\
+  zentry (laplacian_of star200) 7 7 = (-1)%Z /\ zentry (laplacian_of star200) 7 0 = 1%Z /\
+  run_gquery star200 (GGrad false) <> None /\
+  length (upper_edges star200) = 200.
+Proof. vm_compute. repeat split; try reflexivity; discriminate. Qed.
+
 (* ---------------------------------------------------------- non-vacuity *)
 (* a mixed mesh with sparse ids, storage order <> id order, block insertion
    order <> type order, an unreferenced node *)
@@ -233,3 +314,9 @@ Print Assumptions C13_n_hop_reach.
 Print Assumptions C13_laplacian_spec.
 Print Assumptions C13_edge_gradient_spec.
 Print Assumptions C13_e2v_spec.
+Print Assumptions C13_stagewise_factor.
+Print Assumptions C13_graph_laplacian_spec.
+Print Assumptions C13_degree_is_neighbour_count.
+Print Assumptions C13_graph_edge_gradient_spec.
+Print Assumptions C13_graph_e2v_spec.
+Print Assumptions C13_graph_n_hop_reach.
